@@ -2,12 +2,23 @@
 import ast
 from typing import Iterable
 
-from func_adl import EventDataset
+from func_adl import EventDataset, func_adl_callback
 
 from vlib.sh.common import HI, LO, TWIN, nt, pick, snap, tick
 
 
+CB_STREAMS = []      # streams a callback has created and kept a reference to: they are live streams like any other
+
+
+def cb_keep(s, a):
+    r = s.MetaData({"cb": 1})
+    with nt():
+        CB_STREAMS.append((r, (snap(r.query_ast), r.item_type)))      # observed when it was created
+    return r, a
+
+
 class Jet:
+    @func_adl_callback(cb_keep)
     def pt(self, scale: int = 1) -> float: ...  # noqa
     def eta(self) -> float: ...  # noqa
 
@@ -98,6 +109,7 @@ def history(k, ops, pars, vals):
         "tsm": P("lambda e: e.Jets()"), "dict": P("lambda e: {'a': e.x, 'b': (e.y, 1)}"),
     }
     streams = [UDS(), TDS()]
+    del CB_STREAMS[:]
     with nt():
         snaps = [(snap(s.query_ast), s.item_type) for s in streams]
     for i in range(k):
@@ -114,6 +126,10 @@ def history(k, ops, pars, vals):
             streams.append(s)
             with nt():
                 snaps.append((snap(s.query_ast), s.item_type))
+        for cs, sn in CB_STREAMS:      # streams made (and kept) by a callback during this step
+            if not any(cs is x for x in streams):
+                streams.append(cs)
+                snaps.append(sn)
         with nt():
             for si, (st, (sn, it)) in enumerate(zip(streams, snaps)):
                 if snap(st.query_ast) != sn:
